@@ -43,7 +43,7 @@ var c08MapLoopExceptions = ExcTable{
 func init() {
 	register(&Property{
 		ID:          "C08",
-		Explanation: "Decides the absence of the enumerable nondeterminism sources on paths that produce output or diagnostics (necessary conditions of byte-identical builds, not the behaviour): R1 every `range` over a map in non-test code is order-insensitive (commutative body, collect-then-sort, located-diagnostics-only) or a reviewed entry; R2 goroutines deliver results by pre-assigned index or into sorted collections, never by completion order; R3 sort comparators and hash inputs never use unstable source indices; R4 clock/random/environment reads occur only at the reviewed owner sites; R5 no multi-way select on build paths; R6 no location-less diagnostic is logged from concurrently running goroutines. R3 also decides (c) that no raw source index is stored into an integer field a comparator reads and (d) that no decision is taken on the size of the source-index table. R9 goroutine-private-slots: goroutines started in a loop store into shared slices only at elements selected by their own per-iteration parameters (interprocedural element-store summaries). R10 process-wide-state-immutable: E-GLOB. R11 range-self-mutation: no range loop over a slice-typed field stores into or appends to that field at another index inside the loop (compaction cursors recognised). R12 cache-key-coverage / R13 cache-key-unconditional: the C09/R1 analyses. NOT covered: totality of sort comparators, absolute-path independence (paths are run-time values), determinism of plugin code.",
+		Explanation: "Decides the absence of the enumerable nondeterminism sources on paths that produce output or diagnostics (necessary conditions of byte-identical builds, not the behaviour): R1 every `range` over a map in non-test code is order-insensitive (commutative body, collect-then-sort, located-diagnostics-only) or a reviewed entry; R2 goroutines deliver results by pre-assigned index or into sorted collections, never by completion order; R3 sort comparators and hash inputs never use unstable source indices; R4 clock/random/environment reads occur only at the reviewed owner sites; R5 no multi-way select on build paths; R6 no location-less diagnostic is logged from concurrently running goroutines. R3 also decides (c) that no raw source index is stored into an integer field a comparator reads and (d) that no decision is taken on the size of the source-index table. R9 goroutine-private-slots: goroutines started in a loop store into shared slices only at elements selected by their own per-iteration parameters (interprocedural element-store summaries). R10 process-wide-state-immutable: E-GLOB. R11 range-self-mutation: no range loop over a slice-typed field stores into or appends to that field at another index inside the loop (compaction cursors recognised). R12 cache-key-coverage / R13 cache-key-unconditional: the C09/R1 analyses. R14 visited-cut-respects-lowered-minimum: a self-recursive linker walk that lowers a stored minimum returns on the visited mark only under a flag set where the minimum is lowered. NOT covered: totality of sort comparators, absolute-path independence (paths are run-time values), determinism of plugin code.",
 		Run: func(p *Prog, tier string) []*RuleResult {
 			return []*RuleResult{c08MapOrder(p), c08GoroutineOrder(p), c08UnstableKeys(p), c08Ambient(p), c08Select(p), c08LoggerOrder(p), c08SerializedUpdate(p), renamed(c09Frozen(p), "C08/R8 shared-ast-immutability", "linkers of different entry points run in parallel over one parsed AST: a post-parse store into AST memory that was not cloned for this link makes the output depend on scheduling (same analysis as C09/R2)"), goroutinePrivateSlots(p, "C08/R9 goroutine-private-slots"), globalSharedImmutability(p, "C08/R10 process-wide-state-immutable"), c08RangeSelfMutation(p), renamed(c09CacheKey(p), "C08/R12 cache-key-coverage", "a build in a context reuses parse results of earlier builds keyed by the parse options: an option that the key does not compare makes the output of this build depend on what an earlier build left in the cache, i.e. the same inputs and options no longer give the same bytes (same analysis as C09/R1)"), renamed(c09UnconditionalKey(p), "C08/R13 cache-key-unconditional", "every option the cache key compares is compared on every path to `equal`: a comparison made only under a condition on another option lets two different option sets share a cached AST (same analysis as C09/R1c)"), visitedCutRespectsMinimum(p, "C08/R14 visited-cut-respects-lowered-minimum")}
 		},
